@@ -136,12 +136,12 @@ def split_ops(script, outlines):
         if i >= len(outlines):
             res.append((ln, None)); continue
         if cmd in ('snap', 'F.show'):
-            if outlines[i].startswith('throw') or outlines[i].startswith('script-error'):
+            if outlines[i].startswith('throw') or outlines[i].startswith('script-error') or outlines[i] == 'noobj':
                 res.append((ln, [outlines[i]])); i += 1; continue
             j = i
             while j < len(outlines) and outlines[j] != 'E': j += 1
             res.append((ln, outlines[i:j + 1])); i = j + 1
-        elif cmd == 'h2sweep':
+        elif cmd in ('h2sweep', 'savefault'):
             res.append((ln, outlines[i:i + 2])); i += 2
         else:
             res.append((ln, [outlines[i]])); i += 1
